@@ -262,6 +262,55 @@ theorem concatStream_strict (final : Bool) (cs : List SResult) (Ts : List Text) 
   have := concatGo_strict final cs Ts h {} [] ⟨rfl, rfl⟩
   simpa [concatStream] using this
 
+/-! ## the combinator keeps the positions of mapped chunks -/
+
+theorem combFold_mappedPos (cfg : CombCfg) (Q : Nat → Nat → Prop) : ∀ (evs : List Ev) (st : CombSt), ISI st →
+    (∀ t m, Ev.chunk t m ∈ evs → m.orig.isSome = true → Q m.gl m.gc) →
+    ∀ t m, Ev.chunk t m ∈ combFold cfg st evs → m.orig.isSome = true → Q m.gl m.gc := by
+  intro evs
+  induction evs with
+  | nil => intro st _ _ t m h; simp [combFold] at h
+  | cons e es ih =>
+    intro st hi hq t m h ho
+    have hq' : ∀ t m, Ev.chunk t m ∈ es → m.orig.isSome = true → Q m.gl m.gc := fun t m hm => hq t m (List.mem_cons_of_mem _ hm)
+    simp only [combFold] at h
+    rcases List.mem_append.1 h with h | h
+    · cases e with
+      | chunk text m0 =>
+        simp only [combStep] at h
+        obtain ⟨_, k2⟩ := combOnChunk_keep cfg st hi text m0
+        have hk := mem_keys _ t m h
+        rw [combOnChunk_keys] at hk
+        simp only [List.mem_singleton, Prod.mk.injEq] at hk
+        rw [hk.2.1, hk.2.2]
+        exact hq text m0 (by simp) ((k2 t m h).2 ho)
+      | source i s c =>
+        simp only [combStep] at h
+        exfalso
+        have := mem_keys _ t m h
+        unfold combOnSource at this
+        split at this
+        · simp [evsKeys] at this
+        · rw [globalSource_keys] at this; simp at this
+      | name i n => simp [combStep] at h
+    · refine ih _ ?_ hq' t m h ho
+      cases e with
+      | chunk text m0 => simp only [combStep]; unfold ISI; rw [(combOnChunk_keep cfg st hi text m0).1]; exact hi
+      | source i s c =>
+        simp only [combStep]
+        unfold combOnSource ISI
+        split
+        · rw [combInnerFold_keep]; exact Or.inr (by simp only; omega)
+        · exact hi
+      | name i n => exact hi
+
+theorem streamCombined_strictK (t : Text) (sm : SMap) (n : Text) (os : Option Text) (im : SMap) (rm : Bool)
+    (h : StrictK t (streamSM t sm ⟨true, true⟩).evs) : StrictK t (streamCombined t sm n os im rm ⟨true, true⟩).evs := by
+  intro tt m hm ho
+  simp only [streamCombined] at hm
+  exact combFold_mappedPos _ (fun l c => ∃ k, k < t.length ∧ adv startPos (t.take k) = ⟨l, c⟩) _ _ (Or.inl rfl)
+    (fun t' m' hm' ho' => h t' m' hm' ho') tt m hm ho
+
 /-! ## whole trees, cold caches -/
 mutual
 theorem Src.strictC : ∀ (s : Src), s.ModeHypC → s.ids.Nodup → ∀ (σ : Store), Cold σ s.ids → StrictK s.src (s.stream ⟨true, true⟩ σ).1.evs
@@ -271,9 +320,11 @@ theorem Src.strictC : ∀ (s : Src), s.ModeHypC → s.ids.Nodup → ∀ (σ : St
   | .orig t name, _, _, σ, _ => by simp only [Src.stream, Src.src]; exact streamOriginal_strictK t name
   | .sms t name map origSrc inner remove, h, _, σ, _ => by
     simp only [Src.ModeHypC] at h
-    obtain ⟨rfl, ha, hl, _, hseg, _⟩ := h
+    obtain ⟨_, ha, hl, _, hseg, _⟩ := h
     simp only [Src.stream, Src.src]
-    exact streamSM_strictK t map ha hl (fun m hm => (hseg m hm).1)
+    cases inner with
+    | none => exact streamSM_strictK t map ha hl (fun m hm => (hseg m hm).1)
+    | some im => exact streamCombined_strictK t map name origSrc im remove (streamSM_strictK t map ha hl (fun m hm => (hseg m hm).1))
   | .concat .nil, _, _, σ, _ => by simp only [Src.stream, concatStream, concatGo]; exact strictK_nil _
   | .concat (.cons s rest), h, hn, σ, hc => by
     simp only [Src.ModeHypC, SrcList.ModeHypsC] at h
